@@ -12,8 +12,19 @@ import (
 	"verif/harness/fsad"
 )
 
+// attr maps divergence classes to property ids, e.g. "state:C01,err:C05,wf:C03,list:C16"
+var attr = map[string]string{"state": "C01", "err": "C05", "wf": "C03", "list": "C16"}
+
+func parseAttr(s string) {
+	for _, kv := range strings.Split(s, ",") {
+		if i := strings.IndexByte(kv, ':'); i > 0 {
+			attr[kv[:i]] = kv[i+1:]
+		}
+	}
+}
+
 func fsAdapter(kind string, names []string, depth int) engine.Adapter {
-	cfg := fsad.Config{AdapterName: kind, PropState: "C01", PropErr: "C05", PropWF: "C03", PropList: "C16", Names: names, Depth: depth}
+	cfg := fsad.Config{AdapterName: kind, PropState: attr["state"], PropErr: attr["err"], PropWF: attr["wf"], PropList: attr["list"], Names: names, Depth: depth}
 	switch kind {
 	case "mem":
 		cfg.MkFS = fsad.MemFS
@@ -74,9 +85,11 @@ func main() {
 		seed := fl.Int64("seed", 1, "seed")
 		maxStates := fl.Int64("max-states", 0, "stop after N states")
 		out := fl.String("out", "", "write the JSON summary here (default stdout)")
+		at := fl.String("attr", "", "attribution of divergence classes to properties")
 		_ = fl.Parse(os.Args[2:])
+		parseAttr(*at)
 		ads := adaptersFor(*module, *adapter, *names, *depth)
-		sum, err := engine.Run(os.Stdin, *module, ads, engine.Options{Workers: *workers, Sample: *sample, Seed: *seed, MaxStates: *maxStates})
+		sum, err := engine.Run(os.Stdin, *module, ads, engine.Options{Workers: *workers, Sample: *sample, Seed: *seed, MaxStates: *maxStates, OutFile: *out})
 		if err != nil {
 			fmt.Fprintln(os.Stderr, err)
 			os.Exit(2)
@@ -104,7 +117,9 @@ func main() {
 		fl2 := flag.NewFlagSet("args", flag.ContinueOnError)
 		names := fl2.String("names", "a,b", "")
 		depth := fl2.Int("depth", 3, "")
+		at := fl2.String("attr", "", "")
 		_ = fl2.Parse(rf.VhArgs)
+		parseAttr(*at)
 		ad := adaptersFor(rf.Module, rf.Adapter, *names, *depth)[0]
 		obs, divs, err := engine.ReplayOne(ad, rf.Init, rf.State, rf.History, rf.Call, rf.Expected)
 		if err != nil {
